@@ -217,7 +217,7 @@ class Matrix(Qube):
                 raise ValueError('invalid Matrix shape: %s' % item)
 
             size = item[0] * item[1]
-            if len(args) != item:
+            if len(args) != size:
                 raise ValueError('incorrect number of Scalars for '
                                  'Matrix.from_scalars() with shape %s'
                                  % item)
